@@ -28,6 +28,11 @@ class BuilderSystem:
         self.setup(st)
         if getattr(self, "bystander", False):
             self.make_bystander(st)
+        if getattr(self, "replay_only", False):
+            # every state of this search is rebuilt by replaying its history on fresh objects instead of deep-copying a
+            # snapshot: a copy gets new object identities, which silently empties caches keyed on the object (lru_cache on
+            # a method, WeakKeyDictionary, id()-keyed tables)
+            st.__class__ = type("ReplayOnlySut", (st.__class__,), {"copyable": property(lambda self: False)})
         st.rec.take()
         return st
 
@@ -62,7 +67,7 @@ class BuilderSystem:
             block = s[: -len(self.ending)] if s.endswith(self.ending) else s
             # a controller ends a block at CR LF, LF or CR: whatever follows a stray line break inside the chunk is executed
             for piece in lex.LINE_BREAK_RE.split(block):
-                words = lex.executable_words(piece, self.style)
+                words = lex.executable_words(piece, getattr(st, "style", None) or self.style)
                 bad = [w for w in words if w[0] == "?"]
                 if bad:
                     problems.append(("unparseable-word", f"line {piece!r} has unparseable token(s) {bad}"))
@@ -104,6 +109,12 @@ def bystander_hook(origin, target, params, state):
 
 def with_bystander(system):
     system.bystander = True
+    return system
+
+
+def replayed(system):
+    """Every state rebuilt by replay from scratch (no deep-copied snapshots): see BuilderSystem.fresh()."""
+    system.replay_only = True
     return system
 
 
